@@ -127,7 +127,7 @@ func reduceLayout(rc *rec.Recorder, r *rand.Rand, lay layout, nSeeds int) {
 					cids[i] = idOf[names[j]]
 					stakes[i] = lay.Stake[names[j]]
 				}
-				mx, sel := minersc.VerifGovReduce(cids, stakes, prev, lay.Limit, float64(lay.Pct)/100, seed)
+				mx, sel := safeReduce(cids, stakes, prev, lay.Limit, float64(lay.Pct)/100, seed)
 				mxSeen[mx] = true
 				mask := 0
 				for _, sid := range sel {
@@ -157,6 +157,17 @@ func reduceLayout(rc *rec.Recorder, r *rand.Rand, lay layout, nSeeds int) {
 		"ord1": ords[0], "ord2": ords[1], "r1a": runs[0][0], "r1b": runs[0][1], "r2a": runs[1][0], "r2b": runs[1][1],
 		"mx": mx, "tie": cls.tie, "tie_head": cls.head},
 		fmt.Sprintf("x%d/y%d/tie=%v/head=%v", cls.x, cls.y, cls.tie, cls.head), cls.tie)
+}
+
+// safeReduce: a panic of the code under test is recorded as "nothing selected, -1 returned"
+// (rejected by C39_Exact) instead of killing the driver.
+func safeReduce(ids []string, stakes []uint64, prev map[string]bool, limit int, pct float64, seed int64) (mx int, sel []string) {
+	defer func() {
+		if r := recover(); r != nil {
+			mx, sel = -1, nil
+		}
+	}()
+	return minersc.VerifGovReduce(ids, stakes, prev, limit, pct, seed)
 }
 
 type rclass struct {
